@@ -172,6 +172,11 @@ def RemovalJustified (old new : Decl) : Prop :=
   ∀ p x od oc nd, lookupPath old p = some od → child od x = some oc → lookupPath new p = some nd →
     child nd x = none → x ∈ removedNames nd.pragmas ∧ oc.kind.isInterface = false
 
+/-- no declaration on the path is named by a `#removedType` pragma of its (new) containing declaration -/
+def NotRemoved : Decl → List String → Prop
+  | _, [] => True
+  | n, x :: q => x ∉ removedNames n.pragmas ∧ ∀ nc, child n x = some nc → NotRemoved nc q
+
 /-- the names of the nested type declarations are pairwise different at every level of the tree
 (the checker rejects a redeclaration) -/
 def NoDupNames (root : Decl) : Prop :=
